@@ -38,10 +38,15 @@ structure Defects where
   /-- #33: `prepare_new_auth` accepts the users of a group that is new to a known room only from
       user-admins of that group — not from room admins (room_node.rs:909-926) -/
   newGroupUsersNeedUserAdmin : Bool
+  /-- NOT a defect — an environment parameter: the order of the uids relative to creation order. Uids are
+      random; SQLite returns the rows of one list (and the groups of a room) in uid order. `false`: uid
+      order is creation order; `true`: the reverse. The correspondence run drives the real code with
+      sequential uids in either direction (`verif_hooks::uid`). -/
+  uidOrderReversed : Bool
 deriving Repr, DecidableEq
 
-def Defects.asImplemented : Defects := ⟨true, true, true, true⟩
-def Defects.none : Defects := ⟨false, false, false, false⟩
+def Defects.asImplemented : Defects := ⟨true, true, true, true, false⟩
+def Defects.none : Defects := ⟨false, false, false, false, false⟩
 
 inductive MErr where
   | date | rejected | unknownRoom | unknownEntity | notBelongs | invalidNode | noRoom | dead | authExists
@@ -165,30 +170,46 @@ def sortRights (newestFirst : Bool) (l : List RightRow) : List RightRow :=
   if newestFirst then sortBy (fun a b => decide (b.date ≤ a.date)) l
   else sortBy (fun a b => decide (a.date ≤ b.date)) l
 
-/-- what a read returns for one list: uid order (the primary key of `_edge`), then the stable date sort -/
-def readUsers (newestFirst : Bool) (l : List UserRow) : List UserRow :=
-  sortUsers newestFirst (sortBy (fun a b => decide (a.id ≤ b.id)) l)
+/-- in which order the storage returns rows of equal date: uid order (the primary key of `_edge`, used by
+    `RoomNode::read`; `rev` = uids decrease with creation), or the order in which this instance inserted
+    the rows (`seq`: ids in insertion order — what `LOAD_QUERY`'s `ORDER BY mdate` leaves for ties) -/
+inductive TieOrder where
+  | uid (rev : Bool)
+  | seq (s : List Nat)
+deriving Repr
 
-def readRights (newestFirst : Bool) (l : List RightRow) : List RightRow :=
-  sortRights newestFirst (sortBy (fun a b => decide (a.id ≤ b.id)) l)
+def byTie {α : Type} (id : α → Nat) : TieOrder → List α → List α
+  | .uid true, l => sortBy (fun a b => decide (id b ≤ id a)) l
+  | .uid false, l => sortBy (fun a b => decide (id a ≤ id b)) l
+  | .seq s, l => sortBy (fun a b => decide (s.idxOf (id a) ≤ s.idxOf (id b))) l
 
-def sortGroup (newestFirst : Bool) (g : GroupRow) : GroupRow :=
-  { g with rights := readRights newestFirst g.rights, users := readUsers newestFirst g.users,
-           userAdmins := readUsers newestFirst g.userAdmins }
+/-- what a read returns for one list: the storage order, then the stable date sort -/
+def readUsers (newestFirst : Bool) (t : TieOrder) (l : List UserRow) : List UserRow :=
+  sortUsers newestFirst (byTie UserRow.id t l)
+
+def readRights (newestFirst : Bool) (t : TieOrder) (l : List RightRow) : List RightRow :=
+  sortRights newestFirst (byTie RightRow.id t l)
+
+def sortGroup (newestFirst : Bool) (t : TieOrder) (g : GroupRow) : GroupRow :=
+  { g with rights := readRights newestFirst t g.rights, users := readUsers newestFirst t g.users,
+           userAdmins := readUsers newestFirst t g.userAdmins }
+
+def readRoom (newestFirst : Bool) (t : TieOrder) (rr : RoomRow) : RoomRow :=
+  { rr with admins := readUsers newestFirst t rr.admins, groups := rr.groups.map (sortGroup newestFirst t) }
+
+/-- the groups of a room in uid order (the order `Edge::get_edges` returns the placing references in) -/
+def groupsByUid (rev : Bool) (rr : RoomRow) : RoomRow :=
+  { rr with groups := byTie GroupRow.uid (.uid rev) rr.groups }
 
 /-- `RoomNode::read`: what an instance hands to a peer, and what it reads back as `old_room_node` -/
 def exportRoom (df : Defects) (rr : RoomRow) : RoomRow :=
-  { rr with admins := readUsers df.newestFirstReplay rr.admins,
-            groups := rr.groups.map (sortGroup df.newestFirstReplay) }
+  groupsByUid df.uidOrderReversed (readRoom df.newestFirstReplay (.uid df.uidOrderReversed) rr)
 
-/-- the groups of a stored room, in uid order -/
-def groupsByUid (rr : RoomRow) : RoomRow :=
-  { rr with groups := sortBy (fun a b => decide (a.uid ≤ b.uid)) rr.groups }
-
-/-- start-up: `LOAD_QUERY` + `load_json` for one stored room; `none` = the room is not loaded -/
-def reloadRoom (df : Defects) (rr : RoomRow) : Option (Except Err Room) :=
+/-- start-up: `LOAD_QUERY` + `load_json` for one stored room; `none` = the room is not loaded.
+    `seq`: the ids of the rows in the order this instance inserted them -/
+def reloadRoom (df : Defects) (seq : List Nat) (rr : RoomRow) : Option (Except Err Room) :=
   if df.reloadDropsIncompleteRoom && (rr.admins.isEmpty || rr.groups.isEmpty) then none
-  else some (parseRoom df.reloadRawRights (exportRoom df rr))
+  else some (parseRoom df.reloadRawRights (readRoom df.newestFirstReplay (.seq seq) rr))
 
 /-! ### local room mutation -/
 
@@ -491,9 +512,20 @@ structure Site where
   dead : Bool
   stored : List RoomRow
   mem : List Room
+  /-- ids of the stored entry rows in the order this instance inserted them -/
+  seq : List Nat
 deriving Repr
 
-def Site.empty : Site := { dead := false, stored := [], mem := [] }
+def Site.empty : Site := { dead := false, stored := [], mem := [], seq := [] }
+
+/-- ids of the entry rows of a room in the order `RoomNode::write` / `MutationQuery::write` inserts them -/
+def RoomRow.entryIds (rr : RoomRow) : List Nat :=
+  rr.admins.map (·.id) ++ rr.groups.flatMap fun g =>
+    g.rights.map (·.id) ++ g.users.map (·.id) ++ g.userAdmins.map (·.id)
+
+/-- rows that were not stored yet are inserted, in the order given -/
+def Site.noteInserted (s : Site) (rr : RoomRow) : Site :=
+  { s with seq := s.seq ++ (rr.entryIds.filter fun i => !s.seq.contains i) }
 
 def Site.getStored (s : Site) (rid : Id) : Option RoomRow := s.stored.find? (·.rid = rid)
 def Site.getMem (s : Site) (rid : Id) : Option Room := s.mem.find? (·.id = rid)
@@ -519,16 +551,18 @@ def Site.mutate (s : Site) (caller : Key) (n : Nat) (m : MutSpec) : Except MErr 
     else
       match validate (s.getMem m.rid) caller m with
       | .error e => .error e
-      | .ok room => .ok ((s.setStored (storeMutation caller n (if m.isNew then none else old) m)).setMem room)
+      | .ok room =>
+        let rr := storeMutation caller n (if m.isNew then none else old) m
+        .ok (((s.setStored rr).setMem room).noteInserted rr)
 
-def reloadAll (df : Defects) : List RoomRow → Except MErr (List Room)
+def reloadAll (df : Defects) (seq : List Nat) : List RoomRow → Except MErr (List Room)
   | [] => .ok []
   | rr :: t =>
-    match reloadRoom df rr with
-    | none => reloadAll df t
+    match reloadRoom df seq rr with
+    | none => reloadAll df seq t
     | some (.error e) => liftErr (.error e)
     | some (.ok r) =>
-      match reloadAll df t with
+      match reloadAll df seq t with
       | .error e => .error e
       | .ok l => .ok (r :: l)
 
@@ -536,7 +570,7 @@ def reloadAll (df : Defects) : List RoomRow → Except MErr (List Room)
 def Site.restart (df : Defects) (s : Site) : Except MErr Site :=
   if s.dead then .error .dead
   else
-    match reloadAll df s.stored with
+    match reloadAll df s.seq s.stored with
     | .error e => .error e
     | .ok mem => .ok { s with mem }
 
@@ -546,9 +580,11 @@ def Site.importRoom (df : Defects) (s : Site) (cand : RoomRow) : Except MErr Sit
   else
     match s.getMem cand.rid with
     | none =>
-      match prepareNewRoom (groupsByUid cand) with
+      match prepareNewRoom (groupsByUid df.uidOrderReversed cand) with
       | .error e => .error e
-      | .ok room => .ok ((s.setStored (groupsByUid cand)).setMem room)
+      | .ok room =>
+        .ok (((s.setStored (groupsByUid df.uidOrderReversed cand)).setMem room).noteInserted
+          (groupsByUid df.uidOrderReversed cand))
     | some room =>
       match s.getStored cand.rid with
       | none => .error .invalidNode
@@ -557,9 +593,11 @@ def Site.importRoom (df : Defects) (s : Site) (cand : RoomRow) : Except MErr Sit
         | .error e => .error e
         | .ok (false, _) => .ok s
         | .ok (true, merged) =>
-          match liftErr (parseRoom false (groupsByUid merged)) with
+          match liftErr (parseRoom false (groupsByUid df.uidOrderReversed merged)) with
           | .error e => .error e
-          | .ok room' => .ok ((s.setStored (groupsByUid merged)).setMem room')
+          | .ok room' =>
+            .ok (((s.setStored (groupsByUid df.uidOrderReversed merged)).setMem room').noteInserted
+              (groupsByUid df.uidOrderReversed merged))
 
 def Site.export (df : Defects) (s : Site) (rid : Id) : Except MErr RoomRow :=
   if s.dead then .error .dead
